@@ -74,6 +74,15 @@ def no_sync(ans):
     return head + " | T " + " ".join(c for c in t.strip().split(" ") if c and not c.startswith("s:"))
 
 
+def nohint(ans, line):
+    """the `files` answer without the sizes of hint files: the record-level model keeps the length of a torn tail for data
+    files only (a torn hint entry is simply not there for it), so after a crash image with a torn hint append the two
+    sides print different hint file sizes while agreeing on everything that is read"""
+    if line != "files":
+        return ans
+    return " ".join(t for t in ans.split(" ") if not re.match(r"h\d+=", t))
+
+
 def calls_of(ans):
     """logical calls listed after `| T` in an answer line"""
     if " | T" not in ans:
@@ -259,7 +268,11 @@ def run_c14(rep, tier, seed):
         h = next(s[2] for s in spans if s[0] == start)
         meta = next(s[3] for s in spans if s[0] == start)
         k = rng.choice(meta["keys"])
-        tail = [f"restore {cut} 0", "open", f"put {hx(k)} 77", "merge", "reopen", f"put {hx(k)} 78", "files"]
+        # half of the crash images end in a torn append (1, 9 or 17 bytes of the entry being appended at the cut; every entry
+        # is at least 18 bytes long; for a call that is not an append the byte count is ignored): recovery must not repair,
+        # truncate or reopen for writing what an earlier life wrote
+        torn = rng.choice([0, 0, 0, 1, 9, 17])
+        tail = [f"restore {cut} {torn}", "open", f"put {hx(k)} 77", "merge", "reopen", f"put {hx(k)} 78", "files"]
         spans2.append((len(lines2), len(base) + len(tail), meta, cut, len(base)))
         lines2 += base + tail
     if lines2:
@@ -292,10 +305,10 @@ def run_c14(rep, tier, seed):
                 nv += 1
                 if nv <= 3:
                     rep.violation("oracle", dict(what=bad[0] + " (after recovering the directory left by a crash)", script=ls, failing_line=bad[1], observed=bad[2], impl_answers=a2))
-            elif [no_sync(x) for x in a2] != [no_sync(x) for x in b2]:
+            elif [nohint(no_sync(x), l) for x, l in zip(a2, ls)] != [nohint(no_sync(x), l) for x, l in zip(b2, ls)]:
                 nv += 1
                 if nv <= 3:
-                    d = next(i for i in range(ln) if no_sync(a2[i]) != no_sync(b2[i]))
+                    d = next(i for i in range(ln) if nohint(no_sync(a2[i]), ls[i]) != nohint(no_sync(b2[i]), ls[i]))
                     rep.violation("correspondence", dict(what="after a crash image the real code and the model diverge", script=ls, failing_line=d, expected=b2[d][:800], observed=a2[d][:800]))
             rep.nontrivial(["c14c", ls])
     rep.cov["rule"] = ("seeded workloads of put/del/merge/reopen (sync none/always, all max_file_size and merge presets) under the LD_PRELOAD recorder: every call on a store file is checked "
@@ -565,7 +578,9 @@ def run_cut_property(rep, tier, seed, prop, loss):
             probs = check_cuts(rep, tier, rng, prop, h, meta, lines, tags, pair, loss=loss, budget=(40 if broken else (60 if tier == "quick" else 200)), compare_model=not broken)
         finally:
             pair.close()
-        if not loss and not any(p[6] is None for p in probs):
+        # lives after the crash: also for power loss (the image in which nothing unsynced happened to be lost is one of the
+        # images a power failure can leave)
+        if not any(p[6] is None for p in probs):
             for _ in range((2 if tier == "quick" else 6) if not broken else 12):
                 probs += life_after_crash(rep, tier, rng, prop, h, meta, lines, tags, root, compare_model=not broken)
                 if any(p[0] == "oracle" and p[6] is None for p in probs):
